@@ -995,7 +995,7 @@ def r5_rebuild_trigger(run, w):
          "the rebuild runs exactly when scheduled (and once after start-up)", ok, fi=mu.fi)
   au = w.fn("engine.Engine.apply_user_actions")
   cfg = au.cfg
-  upd = au.nodes_calling(lambda c, nm, f: nm == "self._maybe_update_trigger_dependencies")
+  upd = au.nodes_calling(lambda c, nm, f: nm == "self." + mu.fi.name)
   rec = au.nodes_calling(lambda c, nm, f: nm == "self._bring_all_up_to_date")
   app = _user_action_applications(au)
   if not rec:
